@@ -4,6 +4,7 @@ package main
 
 import (
 	"bytes"
+	"context"
 	"encoding/json"
 	"fmt"
 	"regexp"
@@ -12,6 +13,7 @@ import (
 	"time"
 
 	"github.com/tdakkota/docker-logql/internal/lokiapi"
+	"github.com/tdakkota/docker-logql/internal/zzverif/fakedocker"
 	"github.com/tdakkota/docker-logql/internal/zzverif/vkit"
 )
 
@@ -177,6 +179,11 @@ func c15Check(r *vkit.Run, in c15Input) {
 	r.Begin("C15", in)
 	obs := c15Exec(in)
 	r.Eval()
+	c15Judge(r, "C15", in, in, obs)
+}
+
+// c15Judge compares one rendering with the layout of the statement; report is the input recorded on failure.
+func c15Judge(r *vkit.Run, check string, in c15Input, report any, obs c15Obs) {
 	var all []c15Exp
 	distinct := map[string]bool{}
 	for _, s := range in.Streams {
@@ -201,7 +208,7 @@ func c15Check(r *vkit.Run, in c15Input) {
 		i = j
 	}
 	fail := func(why, finding string) {
-		r.Fail("C15", in, nil, obs, map[string]any{"entries_in_time_order": len(all)}, why, finding)
+		r.Fail(check, report, nil, obs, map[string]any{"entries_in_time_order": len(all)}, why, finding)
 	}
 	switch {
 	case obs.Panic != "":
@@ -343,10 +350,119 @@ func c15Run(r *vkit.Run) {
 			}
 		}
 	}
-	r.Note("bounds", fmt.Sprintf("0..%d containers x 3 entry-count patterns x 3 timestamp patterns (distinct interleaved, all equal, reversed) x 8 message offsets x up to 3 stream rotations x 8 option combinations; plus all results of 2 streams x <=2 entries over 2 timestamps x 8 messages (1/%d lattice on the second stream) in 3 stream-identity variants", maxN, step))
+	c15E2ERun(r, func(fn func()) {
+		idx++
+		if !r.Mine(idx) || r.Stop() {
+			return
+		}
+		fn()
+		r.NonTrivial()
+	})
+	r.Note("bounds", fmt.Sprintf("0..%d containers x 3 entry-count patterns x 3 timestamp patterns (distinct interleaved, all equal, reversed) x 8 message offsets x up to 3 stream rotations x 8 option combinations; plus all results of 2 streams x <=2 entries over 2 timestamps x 8 messages (1/%d lattice on the second stream) in 3 stream-identity variants; end to end (argv -> fake daemon -> printed bytes): 1-3 containers x 3 timestamp patterns x 6 message offsets x 20 spellings of the --timestamp/-t, --container/-c, --color flags incl. their defaults", maxN, step))
+}
+
+// ---- end to end: the command itself, from argv over a fake daemon to the printed bytes ----
+
+type c15E2EInput struct {
+	Args []string `json:"args"`
+	// what the argv means
+	Timestamp bool `json:"timestamp"`
+	Container bool `json:"container"`
+	Color     bool `json:"color"`
+	// per-container logs
+	Logs []c15Stream `json:"logs"`
+}
+
+func c15E2EExec(in c15E2EInput) (o c15Obs) {
+	defer func() {
+		if p := recover(); p != nil {
+			o.Panic = fmt.Sprint(p)
+		}
+	}()
+	var ctrs []fakedocker.Container
+	for i, l := range in.Logs {
+		var recs []fakedocker.Rec
+		for _, e := range l.Entries {
+			recs = append(recs, fakedocker.Rec{Stream: 1, TS: fakedocker.TS(e.TS), Msg: e.Msg})
+		}
+		ctrs = append(ctrs, fakedocker.Container{ID: fmt.Sprintf("id%d", i), Name: "/" + l.Container, Image: "img", State: "running", Log: fakedocker.Encode(recs)})
+	}
+	cmd := queryCmd(c16CLI{c: fakedocker.New(ctrs)})
+	var out bytes.Buffer
+	cmd.SetOut(&out)
+	cmd.SetErr(&bytes.Buffer{})
+	cmd.SilenceUsage, cmd.SilenceErrors = true, true
+	cmd.SetArgs(append(append([]string{"--start=1699999000", "--end=1700001000"}, in.Args...), `{}`))
+	if err := cmd.ExecuteContext(context.Background()); err != nil {
+		o.Err = err.Error()
+	}
+	o.Out = out.String()
+	return o
+}
+
+func c15E2ECheck(r *vkit.Run, in c15E2EInput) {
+	r.Begin("C15/e2e", in)
+	obs := c15E2EExec(in)
+	r.Eval()
+	c15Judge(r, "C15/e2e", c15Input{Streams: in.Logs, Timestamp: in.Timestamp, Container: in.Container, Color: in.Color}, in, obs)
+}
+
+func c15E2ERun(r *vkit.Run, one func(fn func())) {
+	base := int64(1700000000) * 1e9
+	msgs := []string{"m", "m\n", "m\r\n", "", "a\nb", " m "}
+	type flagForm struct {
+		args       []string
+		ts, ct, co bool
+	}
+	var forms []flagForm
+	b := func(v bool) string { return fmt.Sprint(v) }
+	for k := 0; k < 8; k++ {
+		ts, ct, co := k&1 != 0, k&2 != 0, k&4 != 0
+		forms = append(forms,
+			flagForm{[]string{"--timestamp=" + b(ts), "--container=" + b(ct), "--color=" + b(co)}, ts, ct, co},
+			flagForm{[]string{"--color=" + b(co), "-c=" + b(ct), "-t=" + b(ts)}, ts, ct, co})
+	}
+	// defaults: timestamps and container names are shown
+	forms = append(forms, flagForm{[]string{"--color=false"}, true, true, false}, flagForm{[]string{"--color=true", "-t=false"}, false, true, true},
+		flagForm{[]string{"--color=false", "-c=false"}, true, false, false}, flagForm{[]string{"--color=false", "-t", "-c"}, true, true, false})
+	for n := 1; n <= 3; n++ {
+		for tsPat := 0; tsPat < 3; tsPat++ {
+			for mo := range msgs {
+				var logs []c15Stream
+				for i := 0; i < n; i++ {
+					s := c15Stream{Container: fmt.Sprintf("c%d", i)}
+					for j := 0; j < 2; j++ {
+						var ts int64
+						switch tsPat {
+						case 0:
+							ts = base + int64(j*n+i)*1000000007
+						case 1:
+							ts = base + int64(j) // ties across containers
+						case 2:
+							ts = base + int64((n-i)*4+j)
+						}
+						s.Entries = append(s.Entries, c15Entry{TS: ts, Msg: msgs[(mo+i+j)%len(msgs)]})
+					}
+					logs = append(logs, s)
+				}
+				for _, f := range forms {
+					in := c15E2EInput{Args: f.args, Timestamp: f.ts, Container: f.ct, Color: f.co, Logs: logs}
+					one(func() { c15E2ECheck(r, in) })
+				}
+			}
+		}
+	}
+	r.GlobalState("end-to-end")
 }
 
 func c15Replay(r *vkit.Run, v vkit.Violation) *vkit.Violation {
+	if v.Check == "C15/e2e" {
+		var in c15E2EInput
+		if err := json.Unmarshal(v.Input, &in); err != nil {
+			r.HarnessError("bad input: %v", err)
+		}
+		return vkit.ReplayOne(r, func() { c15E2ECheck(r, in) })
+	}
 	var in c15Input
 	if err := json.Unmarshal(v.Input, &in); err != nil {
 		r.HarnessError("bad input: %v", err)
